@@ -385,7 +385,7 @@ def run(chk, replay=None):
                             'distinct by the raw descriptor' % NS)
     disagreements = []
     state = {'cex': 0, 'case': 0, 'cex_cases': set()}
-    chk.assumptions.append('the model has the repaired behaviour for findings F17, F18, F21, F23-F26; on a tree that still has them the correspondence differs exactly where the oracle reports the known finding')
+    chk.assumptions.append('z-transform advances (delay < 0, finding F17, pinned by the upstream tests) are outside the theorems (Base.ok); the model mirrors the code there and the oracle reports them through the known keys')
 
     def disagree(what, detail):
         chk.coverage['correspondence']['disagreements'] += 1
